@@ -242,16 +242,35 @@ class ClassCase:
         return j
 
 
+class HandCase:
+    """a class whose registered (un)structure function is hand-written code with no cattrs-generated function behind it:
+    nothing to encode in z3; exercised by CrossHair-driven differential lemmas (vlib/wraprt.py) and concrete round trips"""
+
+    def __init__(self, name, cls, sc, why):
+        self.name, self.cls, self.sc, self.why = name, cls, sc, why
+        self.props = {p["name"]: p for p in sc["props"]}
+
+
+HAND_CASES = []
+
+
 def all_cases(conv=None):
     conv = conv or _conv()
     L = _lsp()
     cases, missing = [], []
+    del HAND_CASES[:]
     for name, sc in spec_classes().items():
         cls = getattr(L, name, None)
         if not (isinstance(cls, type) and attrs.has(cls)):
             missing.append(name)
             continue
-        cases.append(ClassCase(name, cls, sc, conv))
+        try:
+            cases.append(ClassCase(name, cls, sc, conv))
+        except gencode.GrammarError as e:
+            if "hand-written" in str(e):
+                HAND_CASES.append(HandCase(name, cls, sc, str(e)))
+            else:
+                raise
     return cases, missing
 
 
@@ -274,6 +293,8 @@ def run_queries(chk, kinds, solver_timeout_ms=20000):
     except gencode.GrammarError as e:
         chk.harness_error("generated code outside the translator's grammar: %s" % e)
         return [], []
+    for h in HAND_CASES:
+        chk.inconc("%s: %s (not encodable; see the wrapper lemmas of C15 and the concrete root round trips)" % (h.name, h.why))
     s = z3.Solver()
     s.set("timeout", solver_timeout_ms)
     sat = []
